@@ -27,6 +27,8 @@ def run(chk):
         cfg["tout"] = [t for t in cfg["tout"] if t > 0] or [9000.0]
         if "f_BH" in cfg:
             cfg["f_BH"] = cfg["f_BH"][:len(cfg["tout"])] + [0.0] * (len(cfg["tout"]) - len(cfg["f_BH"]))
+        if k % 6 == 5 and cfg["cls"] == "EvolvedMF":
+            cfg["stellar_evolution"] = False        # escape-only runs: the reported moments still use the turn-off-truncated bin of the requested age
         cfgs.append(cfg)
     outs = FR.run_many(cfgs)
     # second stage: the same configurations at ages just after a stellar bin's lower edge turns off (the turn-off bin is then a thin
@@ -86,6 +88,8 @@ def run(chk):
             Ns, ms = out["Ns"][row], out["ms"][row]
             for i in range(len(Ns)):
                 if Ns[i] > 1:
+                    if cfg.get("stellar_evolution") is False and lo[i] >= mto:
+                        continue          # stars are not evolved: bins wholly above the turn-off stay populated and have no admissible range
                     chk.count("populated star bins")
                     hi = min(up[i], mto)
                     if not (lo[i] * (1 - 1e-9) <= ms[i] <= hi * (1 + 1e-9)):
